@@ -58,7 +58,7 @@ def option_table(kind):
     t['border'] = [V(0, '0'), V(1, '1'), V(6, '6')]
     if kind in ('svg', 'svgz'):
         t.update(xmldecl=[V(False)], svgns=[V(False)], nl=[V(False)], omitsize=[V(True)], draw_transparent=[V(True)],
-                 title=[V('A <title> & more', 'A <title> & more'), V('t', 't')], desc=[V('Some description', 'Some description')],
+                 title=[V('A <title> & more', 'A <title> & more'), V('t', 't'), V('Ünï€ode — 点', 'Ünï€ode — 点')], desc=[V('Some description', 'Some description')],
                  svgid=[V('qr-1', 'qr-1')], svgclass=[V('my cls', 'my cls'), V('', '')], lineclass=[V('ln', 'ln'), V('', '')],
                  unit=[V('mm', 'mm'), V('cm', 'cm')], encoding=[V('iso-8859-1', 'iso-8859-1'), V('utf-16', 'utf-16'), V('ascii', 'ascii')],
                  svgversion=[V(1.1, '1.1'), V(2.0, '2.0'), V(2, nocli=True)])
@@ -127,6 +127,11 @@ def option_sets(kind, rnd, n_random, single_fraction=1.0):
         o = OptSet([('svgclass', V(None, nocli=True)), ('lineclass', V(None, nocli=True))])
         o.cli = ['--no-classes']
         sets.append(o)
+        # text the requested SVG encoding cannot represent: every route must behave alike (all refuse or all write the same bytes)
+        uni = V('Ünï€ode — 点', 'Ünï€ode — 点')
+        for enc in ('ascii', 'iso-8859-1'):
+            sets.append(OptSet([('encoding', V(enc, enc)), ('title', uni)]))
+            sets.append(OptSet([('encoding', V(enc, enc)), ('desc', uni), ('xmldecl', V(False))]))
     keys = list(t)
     for _ in range(n_random):
         ks = rnd.sample(keys, min(len(keys), rnd.randint(2, 5)))
@@ -152,7 +157,10 @@ def symbols(rnd, tier):
              ('SEGNO ' * 6, dict(micro=False, error='q'), ['--error', 'q']),
              ('version seven with version information', dict(micro=False, version=7, mask=3, boost_error=False),
               ['--version', '7', '--pattern', '3', '--no-error-boost']),
-             ('Märchen', dict(micro=False, encoding='utf-8', mode='byte'), ['--encoding', 'utf-8', '--mode', 'BYTE'])]
+             ('Märchen', dict(micro=False, encoding='utf-8', mode='byte'), ['--encoding', 'utf-8', '--mode', 'BYTE']),
+             # mask 0 is falsy: it must still be passed on (the automatic mask of this symbol is not 0)
+             ('Hello', dict(micro=False, mask=0), ['--pattern', '0']),
+             ('pattern zero, short option', dict(micro=False, mask=0, error='h'), ['-p', '0', '-e', 'h'])]
     for _ in range(3 if tier == 'quick' else 12):
         n = rnd.randint(1, 90)
         content = ''.join(rnd.choice('ABCDEFGHIJKLMNOPQRSTUVWXYZ0123456789 $%*+-./:abcdefghij') for _ in range(n)).strip() or 'x'
